@@ -32,6 +32,7 @@ type c09Msg struct {
 func (m c09Msg) String() string { return fmt.Sprintf("mw:%s:%d:%d", m.kind, len(m.body), m.k) }
 
 type c09Scenario struct {
+	nb       bool // non-blocking queue: a write that finds the queue full is refused (its message may be cut short or absent)
 	buffered int // > 0: queued channel over the library's write-buffered transport of this size
 	sync     bool
 	qcap     int
@@ -107,6 +108,11 @@ type c09App struct{}
 
 func (c09App) HandleRead(ctx netty.InboundContext, m netty.Message) { ctx.HandleRead(m) }
 
+// swallows exceptions: a refused write (queue full) must not close the channel under the other writers
+type c09Swallow struct{}
+
+func (c09Swallow) HandleException(ctx netty.ExceptionContext, ex netty.Exception) {}
+
 func c09Pipeline(kind string) netty.Pipeline {
 	pl := c09Codecs(kind)
 	pl.AddLast(c09App{})
@@ -134,6 +140,9 @@ func genC09(rng *rand.Rand) *c09Scenario {
 	sc := &c09Scenario{sync: rng.Intn(2) == 0, qcap: []int{1, 2, 4, 8}[rng.Intn(4)], pipeline: []string{"plain", "plain", "delim", "delim", "lf", "varint", "varint+text", "packet"}[rng.Intn(8)]}
 	if !sc.sync && rng.Intn(4) == 0 {
 		sc.buffered = []int{16, 64, 512}[rng.Intn(3)]
+	}
+	if !sc.sync && sc.buffered == 0 && rng.Intn(6) == 0 {
+		sc.nb, sc.pipeline = true, "plain"
 	}
 	nt := 2 + rng.Intn(2)
 	if rng.Intn(10) == 0 {
@@ -213,7 +222,10 @@ func runC09Scenario(sc *c09Scenario, strat rt.Strategy) (*rt.Controller, *mock.T
 	if sc.sync {
 		ch = netty.NewChannel()(1, context.Background(), pl, trx, ctlExec{c})
 	} else {
-		ch = netty.NewAsyncWriteChannel(sc.qcap, true)(1, context.Background(), pl, trx, ctlExec{c})
+		ch = netty.NewAsyncWriteChannel(sc.qcap, !sc.nb)(1, context.Background(), pl, trx, ctlExec{c})
+	}
+	if sc.nb {
+		pl.AddLast(c09Swallow{})
 	}
 	netty.NvAttach(pl, ch)
 	for ti, ms := range sc.threads {
@@ -264,7 +276,7 @@ func isMsgLock(point string) bool {
 }
 
 func printC09(sc *c09Scenario, frames [][][]byte, c *rt.Controller, tr *mock.Transport) {
-	emit("C09 cfg %d %d %s", b2i(sc.sync), sc.qcap, sc.pipeline)
+	emit("C09 cfg %d %d %s nb=%d", b2i(sc.sync), sc.qcap, sc.pipeline, b2i(sc.nb))
 	for ti, ms := range sc.threads {
 		ss := make([]string, len(ms))
 		for i, m := range ms {
